@@ -669,6 +669,10 @@ func (e *pathEngine) atomKey(c Val, pol bool) (atomKeyT, bool, bool) {
 		break
 	}
 	inst := func(v Val) (atomKeyT, bool) {
+		switch v.V.(type) {
+		case *ssa.Parameter, *ssa.FreeVar:
+			return atomKeyT{v: v.V, f: v.F}, v.F != nil
+		}
 		in, ok := v.V.(ssa.Instruction)
 		if !ok || v.F == nil || in.Block() == nil {
 			return atomKeyT{}, false
